@@ -84,6 +84,9 @@ def run (payload : String) : String :=
   match payload.splitOn ";" with
   | [] => "bad-case"
   | h :: ops =>
+    -- CANCELLATION (`cancel:<c>`: a pending future is dropped) is outside the model's contract (a request that waits is
+    -- never dropped): such histories are judged on the implementation by the check's oracle only
+    if ops.any (fun o => o.startsWith "cancel:") then "unsupported" else
     match parseHeader h with
     | none => "bad-case"
     | some (sync, k, s0) =>
